@@ -184,16 +184,31 @@ impl Property for C09 {
         let fail = |oracle: &str, detail: String| Verdict::Fail(Failure::new(oracle, oracle, format!("{detail}\nfiles: {:?}", sess.files.iter().map(|f| (&f.0, f.1.chars().take(200).collect::<String>())).collect::<Vec<_>>())));
         let mut nontrivial = false;
 
-        // ---- diagnostics
-        let published = c.last_diagnostics();
-        for (fid, ds) in a.diagnostics() {
-            let text = sess.text_of(fid);
-            let rp = RefPos::new(&text);
-            let want = sorted(ds.iter().map(|d| json!({"range": lsp_range(&rp, r2(d.location.range).0, r2(d.location.range).1), "message": d.message})).collect());
-            let uri = sess.uri_of(fid);
-            let got = published.get(&uri).map(|x| x.1.clone());
-            if got.as_ref() != Some(&want) {
-                return done(c, fail("C09.diagnostics", format!("published diagnostics of {uri}: {got:?}, expected {want:?}")));
+        // ---- diagnostics (a mismatch is believed only when it is still there after the server has been
+        // observed a second time: pause, idle, second barrier)
+        for attempt in 0..2 {
+            let published = c.last_diagnostics();
+            let mut bad = None;
+            for (fid, ds) in a.diagnostics() {
+                let text = sess.text_of(fid);
+                let rp = RefPos::new(&text);
+                let want = sorted(ds.iter().map(|d| json!({"range": lsp_range(&rp, r2(d.location.range).0, r2(d.location.range).1), "message": d.message})).collect());
+                let uri = sess.uri_of(fid);
+                let got = published.get(&uri).map(|x| x.1.clone());
+                if got.as_ref() != Some(&want) {
+                    bad = Some(format!("published diagnostics of {uri}: {got:?}, expected {want:?}"));
+                    break;
+                }
+            }
+            match bad {
+                None => break,
+                Some(detail) if attempt == 1 => return done(c, fail("C09.diagnostics", detail)),
+                Some(_) => {
+                    std::thread::sleep(Duration::from_millis(150));
+                    if !sched.wait_idle(1, Duration::from_secs(60)) || !c.barrier(&root_uri) {
+                        return done(c, Verdict::Skip("not-idle"));
+                    }
+                }
             }
         }
         // ---- definition / references at every identifier of the root
@@ -279,7 +294,24 @@ impl Property for C09 {
             if !c.barrier(&root_uri) {
                 return done(c, Verdict::Skip("no-response"));
             }
-            let published = c.last_diagnostics();
+            let mut published = c.last_diagnostics();
+            let stale = |published: &BTreeMap<String, (Option<i64>, Vec<serde_json::Value>)>| {
+                a2.diagnostics().iter().any(|(fid, ds)| {
+                    let Some(path) = ws2.fs.path_of(*fid) else { return false };
+                    let text = files2.iter().find(|f| f.0 == path).map(|f| f.1.clone()).unwrap_or_default();
+                    let rp = RefPos::new(&text);
+                    let want = sorted(ds.iter().map(|d| json!({"range": lsp_range(&rp, r2(d.location.range).0, r2(d.location.range).1), "message": d.message})).collect());
+                    published.get(&format!("file://{path}")).map(|x| &x.1) != Some(&want)
+                })
+            };
+            if stale(&published) {
+                // believed only when still there after a second observation of the idle server
+                std::thread::sleep(Duration::from_millis(150));
+                if !sched.wait_idle(2, Duration::from_secs(60)) || !c.barrier(&root_uri) {
+                    return done(c, Verdict::Skip("not-idle"));
+                }
+                published = c.last_diagnostics();
+            }
             for (fid, ds) in a2.diagnostics() {
                 let Some(path) = ws2.fs.path_of(fid) else { continue };
                 let text = files2.iter().find(|f| f.0 == path).map(|f| f.1.clone()).unwrap_or_default();
